@@ -89,7 +89,7 @@ class Contract:
         self.ensures_raise = d.get("ensures_raise", {})
         self.no_raise = d.get("no_raise")         # None | obligation name: body must not raise
         self.inv = d.get("inv", False)            # assume class invariant at entry, assert at exit
-        self.inv_on_raise = d.get("inv_on_raise", True)
+        self.inv_on_raise = d.get("inv_on_raise", not d.get("ctor", False))
         self.assert_inv_of = d.get("assert_inv_of", [])   # exprs (in callee param names) whose invariant is asserted at call sites
         self.assume_inv_of = d.get("assume_inv_of", [])   # ... and re-assumed after the call
         self.loops = d.get("loops", {})           # ordinal -> {"inv": {name: expr}, "modifies": [...]}
@@ -100,6 +100,9 @@ class Contract:
         self.is_property = d.get("property", False)
         self.bind = d.get("bind", {})             # extra name -> expr bindings available in the spec
         self.assume_entry = d.get("assume_entry", {})
+        self.ctor = d.get("ctor", False)          # constructor: invariant asserted at exit only
+        self.ghost_exit = d.get("ghost_exit", {}) # ghost assignments executed at every normal exit
+        self.check_frame = d.get("check_frame", True)
 
 
 class Ctx:
@@ -392,7 +395,7 @@ class Task:
             for cn in self.ctx.mro(self.receiver):
                 for k, t in self.ctx.classes.get(cn, {}).get("wf", {}).items():
                     st.assume(self.spec_bool(st, t, env, self_cls=self.receiver))
-            if c.inv:
+            if c.inv and not c.ctor:
                 for k, t in self.ctx.invariants(self.receiver).items():
                     st.assume(self.spec_bool(st, t, env, self_cls=self.receiver))
         for k, t in c.requires.items():
@@ -432,6 +435,14 @@ class Task:
                 env["result"] = o.val
             else:
                 env["result"] = VNONE
+            for tgt, t in c.ghost_exit.items():
+                val = self.spec(st, t, env, self.old, self.receiver)
+                if tgt.startswith("self."):
+                    self.write_field(st, env["self"], tgt[5:], val)
+                else:
+                    st.globals[tgt] = coerce(val, self.ctx.globals[tgt])
+            if c.check_frame:
+                self.frame_obligations(st, env)
             for k, t in c.ensures.items():
                 self.oblige(st, f"{self.label}: ensures {k}", self.spec_bool(st, t, env, self.old, self.receiver), "ensures")
             if c.inv and self.receiver:
@@ -450,6 +461,52 @@ class Task:
                     self.oblige(st, f"{self.label}: invariant {k} at raise", self.spec_bool(st, t, env, self.old, self.receiver), "invariant")
         else:
             raise Unsupported(f"{self.label}: {o.kind} outside a loop")
+
+    def frame_obligations(self, st, env):
+        """everything outside the contract's modifies clause is unchanged (checked, not assumed)"""
+        c = self.contract
+        old_heap, old_glob = self.old
+        whole, per_obj, globs = set(), {}, set()
+        for m in c.modifies:
+            m = m.strip()
+            if m.endswith("[*]"):
+                cn, f = m[:-3].split(".")
+                whole.add((cn, f))
+            elif "." in m:
+                ox, f = m.rsplit(".", 1)
+                if ox in self.ctx.classes and ox not in env:
+                    whole.add((ox, f))
+                    continue
+                prev_old = self.spec(st, f"old({ox})", env, self.old, self.receiver)
+                d = self.ctx.field_decl(prev_old.sort.cls, f)
+                if d is None:
+                    raise Unsupported(f"modifies {m}: undeclared field")
+                per_obj.setdefault((d[0], f), []).append(prev_old.z)
+            else:
+                globs.add(m)
+        for key, arrs in st.heap.items():
+            sort = self.ctx.classes[key[0]]["fields"][key[1]]
+            olds = old_heap.get(key)
+            if olds is None:
+                olds = [z3.Const(f"H.{key[0]}.{key[1]}.{i}!0", z3.ArraySort(Ref, cs)) for i, cs in enumerate(sort.comps())]
+            if all(z3.eq(a, b) for a, b in zip(arrs, olds)) or key in whole:
+                continue
+            goals = []
+            for a, b in zip(arrs, olds):
+                exp = b
+                for o in per_obj.get(key, []):
+                    exp = z3.Store(exp, o, z3.Select(a, o))
+                goals.append(a == exp)
+            self.oblige(st, f"{self.label}: frame: {key[0]}.{key[1]} only changes where the modifies clause allows", z3.And(*goals), "frame")
+        for g, v in st.globals.items():
+            if g in globs:
+                continue
+            ov = old_glob.get(g)
+            if ov is None:
+                ov = V(self.ctx.globals[g], [z3.Const(f"G.{g}.{i}!0", cs) for i, cs in enumerate(self.ctx.globals[g].comps())])
+            if all(z3.eq(a, b) for a, b in zip(v.comps, ov.comps)):
+                continue
+            self.oblige(st, f"{self.label}: frame: global {g} unchanged", z3.And(*[a == b for a, b in zip(v.comps, ov.comps)]), "frame")
 
     # ---------------------------------------------------------------- statements
     def exec_block(self, stmts, st):
@@ -1315,6 +1372,8 @@ class Task:
             return res
         if isinstance(cont, VPyTuple) and isinstance(node.slice, ast.Constant):
             return [(st, cont.items[node.slice.value], None)]
+        if isinstance(cont, V) and isinstance(cont.sort, TupleSort) and isinstance(node.slice, ast.Constant):
+            return [(st, tuple_items(cont)[node.slice.value], None)]
         raise Unsupported(f"subscript of {cont} (line {node.lineno})")
 
     def ex_Lambda(self, node, st):
@@ -1747,6 +1806,10 @@ class SpecEval:
             return map_get(c, coerce(i, c.sort.key))
         if isinstance(c, VConstSeq):
             return vbv(c.lookup_bv(coerce(i, BV).z))
+        if isinstance(c, V) and isinstance(c.sort, TupleSort) and isinstance(n.slice, ast.Constant):
+            return tuple_items(c)[n.slice.value]
+        if isinstance(c, VPyTuple) and isinstance(n.slice, ast.Constant):
+            return c.items[n.slice.value]
         raise Unsupported(f"spec subscript {ast.unparse(n)}")
 
     def s_Call(self, n):
